@@ -11,6 +11,9 @@ import Autd3.Drv.Common
 * `rxenc <count> <seed>`       (`<len> <fnv64 data> <same|differ|err>`)
 * `rxdec <len> <seed>` / `rxdecx <hex|->`
                                (`ok <count> <fnv data fields> <fnv ack fields> <re-encoded len> <fnv>` / `err`)
+* `simrx <n> <len> <seed>`     the REAL `Simulator` link's `receive` of a `len`-byte reply into `n` acknowledgements
+                               `(0xA5,0x5A)` (`ok <n> <fnv of the n elements> <guard changed> 0` / `err`) = `linkReceive`
+* `simtx <n> <seed>`           the real link's `send`: what the peer received (`<n> <len> <fnv> same`) = `linkSend`
 * `geo <dev;dev;…|->`          dev = 8 words `px py pz rw ri rj rk ss` as 64 hex digits
                                (`msg <devmsg;…> dec <dev;…>`)
 * `geodec <devmsg;…|->`        devmsg = `<24 hex|->,<32 hex|->,<8 hex|->` (pos, rot w x y z, sound speed)
@@ -162,6 +165,19 @@ def answer (line : String) : String :=
     match optHex h with
     | some data => rxAnswer (decodeRx data.toList)
     | none => "bad-op"
+  | ["simrx", n, len, seed] =>
+    match nats [n, len, seed] with
+    | some [n, len, seed] =>
+      match linkReceive (List.replicate n ⟨0xA5, 0x5A⟩) (lcgBytes seed len).toList with
+      | .error e => errStr e
+      | .ok (out, _) => s!"ok {n} {hex16 (fnv64 (encodeRx out).toArray)} 0 0"
+    | _ => "bad-op"
+  | ["simtx", n, seed] =>
+    match nats [n, seed] with
+    | some [n, seed] =>
+      let msg := linkSend (mkFrames n seed)
+      s!"{msg.n} {msg.data.length} {hex16 (fnv64 msg.data.toArray)} same"
+    | _ => "bad-op"
   | ["geo", devs] =>
     match parseList parsePose devs with
     | some g =>
